@@ -388,6 +388,28 @@ def check_unit1(unit, repo, want_canary=False, ambig=0):
         res.status = "ok"
         _digest(res, out, fns, tagline, lines)
         if res.status == "rlimit":
+            # a broken body can make the prover search until the limit instead of failing.  Clauses and hints marked
+            # /*H<*/ .. /*>H*/ (the expensive refinement clauses) are dropped and the remaining, cheaper obligations are
+            # checked: a definite failure there is reported; if they all pass the unit stays undecided.
+            light = re.sub(r"/\*H<\*/.*?/\*>H\*/", " ", text, flags=re.S)
+            if light != text:
+                lp = b["path"].replace(".rs", "_light.rs")
+                open(lp, "w").write(light)
+                out2 = run_verus(lp)
+                r2 = UnitResult(); r2.unit = unit; r2.udesc = res.udesc; r2.status = "ok"; r2.reason = ""; r2.failures = []
+                llines = light.split("\n")
+                ltoks, _ = lex(light)
+                lfns, ltag, _ = analyse(ltoks)
+                for f in lfns:   # provenance is lost by re-lexing: copy it by qualified name
+                    for g in fns:
+                        if g.qual == f.qual:
+                            f.real, f.src, f.src_line = g.real, g.src, g.src_line
+                _digest(r2, out2, lfns, ltag, llines)
+                if r2.status == "ok" and r2.failures:
+                    res.status = "ok"; res.failures = r2.failures; res.verified = getattr(r2, "verified", 0); res.fn_times = getattr(r2, "fn_times", {})
+                    res.note = "rlimit with the full contract; failures are from the unit without its /*H<*/../*>H*/ clauses"
+                    res.wall = time.time() - t0
+                    return res
             res.status = "undecided"; res.reason = "rlimit exceeded (also at 4x): " + res.reason
     if want_canary and res.status == "ok":
         res.canary = run_canary(res, toks)
